@@ -93,6 +93,11 @@ def materials(c):
         "allsen": f"hmm={en},compallsen=yes",
         "narrow": f"hmm={en},beam=1e-12,pbeam=1e-12,wbeam=1e-8",
         "maxhmm": f"hmm={en},maxhmmpf=40",
+        # absolute HMM limits that a wide grammar (pizza.gram) exceeds: the adaptive beam factor is < 1 for long stretches
+        "maxhmm60": f"hmm={en},maxhmmpf=60",
+        "maxhmm80": f"hmm={en},maxhmmpf=80",
+        "maxhmm150": f"hmm={en},maxhmmpf=150",
+        "maxhmm250": f"hmm={en},maxhmmpf=250",
         "ds2": f"hmm={en},ds=2,topn=2",
         # vocal-tract-length warping of the mel filter bank: fe_warp_*.c keep the warp in process-wide statics written by fe_init
         "warp_il": f"hmm={en},warp_params=1.1",
@@ -199,7 +204,35 @@ def ring_growth_scenario(rng, mat, stats, h):
     return h
 
 
-def gen_history(rng, mat, stats, ring_growth=False):
+def beam_carry_scenario(rng, mat, stats):
+    """adaptive pruning (`maxhmmpf`): a wide grammar under an absolute HMM limit, earlier utterances cut at random points
+    (around the speech onset the last frames are still over the limit, so the utterance ends with narrowed beams), no grammar
+    change, then the probe utterance — fsg_search_start has to restore beam_factor / beam / pbeam / wbeam"""
+    names = [x["name"] for x in mat["audio"]]
+    cfg = rng.choice(["maxhmm", "maxhmm60", "maxhmm60", "maxhmm60", "maxhmm80", "maxhmm80", "maxhmm150", "maxhmm250"])
+    stats["configs"][cfg] = stats["configs"].get(cfg, 0) + 1
+    g = {"kind": "jsgf", "i": 4}      # pizza.gram
+    items = [{"op": "gram", "g": g}]
+    for _ in range(rng.range(1, 3)):
+        a = names.index(rng.choice(["pizza", "pizza", "goforward", "loud"]))
+        ln = rng.choice([9000, 10500, 13500, 15000, 19500, 21000, 24000, rng.range(8000, 30000), rng.range(8000, 30000)])
+        ln = min(ln, mat["audio"][a]["n"])
+        ch, kind = gen_chunks(rng, ln, stats, force=rng.choice(["fixed", "whole"]))
+        items.append({"op": "utt", "utt": {"a": a, "off": 0, "len": ln, "mode": "stream", "fmt": "i", "partial": [],
+                                             "flags": rng.choice([0, 1]), "chunks": ch, "chunking": kind, "nosearch": [0] * len(ch)}})
+    a = names.index("pizza")
+    n = mat["audio"][a]["n"]
+    ch, kind = gen_chunks(rng, n, stats, force=rng.choice(["fixed", "big"]))
+    tutt = {"a": a, "off": 0, "len": n, "mode": "stream", "fmt": "i", "partial": [], "flags": 1, "chunks": ch,
+            "chunking": kind, "nosearch": [0] * len(ch)}
+    stats["beam_carry_scenarios"] = stats.get("beam_carry_scenarios", 0) + 1
+    return {"cfg": cfg, "items": items, "target": {"g": g, "cmn": rng.choice(CMN_TEXTS[:3]), "utt": tutt, "no_cmn_reset": False},
+            "poison": rng.choice([0, 0, 7]), "poison_seed": rng.below(1 << 30)}
+
+
+def gen_history(rng, mat, stats, ring_growth=False, beam_carry=False):
+    if beam_carry or rng.chance(0.06):
+        return beam_carry_scenario(rng, mat, stats)
     h = gen_history_plain(rng, mat, stats)
     if ring_growth or rng.chance(0.12):
         h = ring_growth_scenario(rng, mat, stats, h)
@@ -801,7 +834,7 @@ def check(c):
         nhist = npair = 0
     distinct, ok = set(), True
     for i in range(nhist):
-        h = gen_history(rng, mat, stats, ring_growth=(i % 8 == 0))
+        h = gen_history(rng, mat, stats, ring_growth=(i % 8 == 0), beam_carry=(i % 8 == 4))
         distinct.add(json.dumps(h, sort_keys=True))
         if i < 2:
             c.samples.append({"config": h["cfg"], "history": [it["op"] + (":" + it["utt"]["mode"] if it["op"] == "utt" else "") for it in h["items"]],
